@@ -475,7 +475,8 @@ def log_check(ctx, tags, nlogs, nevents, monotone=True, with_compact=False, moni
     rng = random.Random(ctx.seed * 7919 + 13)
     logs = []
     for k in range(nlogs):
-        g = synth.LogGen(rng, nids=rng.choice([3, nids, nids + 3]), monotone=monotone if rng.random() < 0.8 else False)
+        g = synth.LogGen(rng, nids=rng.choice([3, nids, nids + 3]), monotone=monotone if rng.random() < 0.8 else False,
+                         rich=(k % 3 == 2))
         logs.append(g.log(rng.choice([nevents // 2, nevents, nevents * 2])))
     rpc = Rpc()
     wd = mkscratch('ergo-logs-')
